@@ -275,6 +275,48 @@ def stage_header_comments(ctx: Ctx):
                         ctx.violation('comment-header-collateral', 'line comment put changed more than the addressed comment', {**rec, 'after': root.src})
 
 
+ANCESTOR_PROGS = ['def f():\n    if a:\n        x = 1  # old\n    y = 2\n', 'class K:\n    def m(self):\n        return 1  # old\n\nz = 0\n',
+                  'for i in j:\n    k  # old\nelse:\n    l  # old2\nm = 1\n', 'try:\n    a  # c1\nexcept E:\n    b  # c2\nfinally:\n    c  # c3\nd\n',
+                  'if p:\n    with q:\n        while r:\n            s  # deep\nt\n', 'match v:\n    case 1:\n        w  # in case\nu = 1\n']
+
+
+def stage_comment_ancestors(ctx: Ctx):
+    """deterministic: a statement's line comment is part of what its enclosing blocks own (bloc / own_src / copy) when it is their last child: after the blocks' extents
+    were read, replace / add / delete the comment, then every enclosing block must read (own_src, copy, bloc) exactly like the same block of a fresh tree of the new source"""
+    import fst
+    for src in ANCESTOR_PROGS:
+        probe = fst.FST(src, 'exec')
+        for path in [probe.child_path(f) for f in probe.walk(True) if isinstance(f.a, ast.stmt)]:
+            for text in ('a considerably longer replacement comment', 'c', None):
+                root = fst.FST(src, 'exec')
+                f = root.child_from_path(path)
+                anc = [p for p in parents(f)]
+                for a_ in [f] + anc:                     # read first: this is what fills the caches
+                    a_.bloc
+                    if a_.parent is not None:
+                        a_.own_src()
+                try:
+                    f.put_line_comment(text)
+                except Exception:
+                    continue
+                ctx.tick(('cmt-anc', src, str(path), text), 'comment:ancestors')
+                try:
+                    fresh = fst.FST(root.src, 'exec')
+                except Exception as e:
+                    ctx.violation('comment-c01', 'source after put_line_comment does not parse', {'src': src, 'stmt': repr(f), 'text': text, 'after': root.src, 'error': repr(e)[:200]})
+                    continue
+                for a_ in [f] + anc:
+                    if a_.parent is None:
+                        continue
+                    b_ = fresh.child_from_path(root.child_path(a_))
+                    got = (tuple(a_.bloc), a_.own_src(), a_.copy().src)
+                    want = (tuple(b_.bloc), b_.own_src(), b_.copy().src)
+                    if got != want:
+                        ctx.violation(f'comment-ancestor-stale|{type(a_.a).__name__}', 'after a line comment put an enclosing block reads differently (bloc / own_src / copy) from the same block of a fresh tree',
+                                      {'src': src, 'stmt': repr(f), 'text': text, 'after': root.src, 'block': repr(a_), 'got': repr(got)[:300], 'fresh': repr(want)[:300]})
+                        break
+
+
 def stage_comments(ctx: Ctx, progs):
     import fst
     rng = ctx.rng
@@ -331,6 +373,51 @@ def list_fields(a):
         if isinstance(v, list) and v and all(isinstance(x, ast.AST) for x in v):
             out.append((fl, len(v)))
     return out
+
+
+CLAUSE_PROGS = ['for i in j:\n    pass\nelse:\n    if c:\n        d\n', 'while a:\n    b\nelse:\n    if c: d\n    e\n', 'try:\n    a\nexcept E:\n    b\nelse:\n    if c:\n        d\n    elif e:\n        f\nfinally:\n    if g: h\n',
+                'if a:\n    b\nelse:\n    if c:\n        d\n', 'if a:\n    b\nelif c:\n    d\nelse:\n    e\n', 'if a:\n    b\nelse:\n    if c:\n        d\n    x\n',
+                'def f():\n    for i in j:\n        k\n    else:\n        if m:\n            n\n        else:\n            o\n', 'match v:\n    case 1:\n        if a: b\n    case _:\n        c\n',
+                'try:\n    a\nexcept* E:\n    if b: c\nexcept* F:\n    d\n', 'async def g():\n    async for i in j:\n        k\n    else:\n        if l: m\n']
+
+
+def stage_clause_roundtrip(ctx: Ctx):
+    """deterministic: every (start, stop) of every block field (body / orelse / finalbody / handlers / cases) of statements whose clauses hold `if` statements (the elif spelling
+    is only valid under an `if`): cut, put back at the same index: the source must parse to the original structure and to the live tree"""
+    import fst
+    for src in CLAUSE_PROGS:
+        ref = ast.parse(src)
+        probe = fst.FST(src, 'exec')
+        for h in probe.walk(True):
+            for fl in ('body', 'orelse', 'finalbody', 'handlers', 'cases'):
+                v = getattr(h.a, fl, None)
+                if not (isinstance(v, list) and v and isinstance(v[0], ast.AST)):
+                    continue
+                path = probe.child_path(h)
+                for i in range(len(v)):
+                    for j in range(i + 1, len(v) + 1):
+                        for opts in ({}, {'norm_self': False}, {'elif_': False}):
+                            root = fst.FST(src, 'exec')
+                            g = root.child_from_path(path)
+                            rec = {'src': src, 'holder': repr(g), 'field': fl, 'start': i, 'stop': j, 'options': repr(opts)}
+                            try:
+                                piece = g.get_slice(i, j, fl, cut=True, **opts)
+                            except Exception:
+                                continue
+                            rec['after_cut'] = root.src
+                            rec['piece'] = piece.src
+                            try:
+                                g.put_slice(piece, i, i, fl, **opts)
+                            except Exception as e:
+                                ctx.violation(f'putback-refused|{type(g.a).__name__}.{fl}|{type(e).__name__}', 'putting back what was just cut is refused', {**rec, 'error': repr(e)[:200]})
+                                continue
+                            ctx.tick(('clause-rt', src, str(path), fl, i, j, repr(opts)), 'roundtrip:clause')
+                            d = reparse_diffs(root)
+                            if not d:
+                                d = cmp_ast(squash_multiline_strings(root.a), squash_multiline_strings(ref), positions=False)
+                            if d:
+                                ctx.violation(f'cut-putback|{type(g.a).__name__}.{fl}', 'cutting a slice of a clause and putting it back at the same place does not restore the tree',
+                                              {**rec, 'after': root.src, 'diffs': d})
 
 
 def stage_roundtrip(ctx: Ctx, progs):
@@ -492,7 +579,9 @@ def run(ctx: Ctx):
     progs = corpus(ctx.rng, gen=ctx.scale(20, 150))
     run_guarded(ctx, stage_comments, progs)
     run_guarded(ctx, stage_header_comments)
+    run_guarded(ctx, stage_comment_ancestors)
     run_guarded(ctx, stage_roundtrip, progs)
+    run_guarded(ctx, stage_clause_roundtrip)
 
 
 def replay(path):
